@@ -18,7 +18,7 @@ from ..errors import InvalidExchangeKeyError
 from ..rfc7517.models import CurveKey
 from ..rfc7517.pem import CryptographyBinding
 from ..rfc7517.types import KeyParameters
-from ..util import base64_to_int, int_to_base64
+from ..util import base64_to_int, urlsafe_b64encode
 from ..registry import KeyParameter
 
 __all__ = ['ECKey']
@@ -29,6 +29,14 @@ ECDictKey = t.TypedDict("ECDictKey", {
     "y": str,
     "d": str,  # optional
 }, total=False)
+
+
+def _coordinate_to_base64(num: int, curve_key_size: int) -> str:
+    # https://www.rfc-editor.org/rfc/rfc7518#section-6.2.1.2
+    # The length of this octet string MUST be the full size of a coordinate
+    # for the curve specified in the "crv" parameter, e.g. 66 octets for P-521.
+    length = (curve_key_size + 7) // 8
+    return urlsafe_b64encode(num.to_bytes(length, "big")).decode("utf-8")
 
 
 class ECBinding(CryptographyBinding):
@@ -75,11 +83,12 @@ class ECBinding(CryptographyBinding):
     @classmethod
     def export_private_key(cls, key: EllipticCurvePrivateKey) -> ECDictKey:
         numbers = key.private_numbers()
+        size = key.curve.key_size
         return {
             "crv": cls._curves_dss[key.curve.name],
-            "x": int_to_base64(numbers.public_numbers.x),
-            "y": int_to_base64(numbers.public_numbers.y),
-            "d": int_to_base64(numbers.private_value),
+            "x": _coordinate_to_base64(numbers.public_numbers.x, size),
+            "y": _coordinate_to_base64(numbers.public_numbers.y, size),
+            "d": _coordinate_to_base64(numbers.private_value, size),
         }
 
     @classmethod
@@ -95,10 +104,11 @@ class ECBinding(CryptographyBinding):
     @classmethod
     def export_public_key(cls, key: EllipticCurvePublicKey) -> ECDictKey:
         numbers = key.public_numbers()
+        size = numbers.curve.key_size
         return {
             "crv": cls._curves_dss[numbers.curve.name],
-            "x": int_to_base64(numbers.x),
-            "y": int_to_base64(numbers.y),
+            "x": _coordinate_to_base64(numbers.x, size),
+            "y": _coordinate_to_base64(numbers.y, size),
         }
 
 
